@@ -27,6 +27,8 @@
 EXTENDS Naturals, Integers, Sequences, FiniteSets, TLC, SequencesExt
 
 CONSTANTS SdsWriters, RasWriters, Shapes, Types, RasDims, ScaleSets, MaxObjs, MaxOps, KeepHist,
+          Grows,  \* how many records a later session may append to a dataset with an unlimited dimension
+
           Mix     \* FALSE: generated files stay clear of the combinations with known findings (see Clear...), so that
                   \* everything else is explored to the end; TRUE: anything goes
 FAIL == -1
@@ -63,6 +65,13 @@ WriteSds(w, shape, ty, sc, unl) ==
     /\ nk' = nk + 1
     /\ Log("WriteSds", [api |-> w, shape |-> shape, type |-> ty, k |-> nk + 1, scales |-> sc, unl |-> unl], [ret |-> 0])
     /\ UNCHANGED <<st, ras>>
+\* records appended to dataset i (unlimited first dimension, written through SD) in a LATER session that does nothing
+\* else: the file is opened for writing, n more records are written behind the existing ones, the file is closed
+GrowSds(i, n) ==
+    /\ st = "ready" /\ i \in 1..Len(sds) /\ sds[i].unl /\ n >= 1
+    /\ sds' = [sds EXCEPT ![i].shape = [@ EXCEPT ![1] = @ + n]]
+    /\ Log("GrowSds", [k |-> sds[i].k, type |-> sds[i].type, shape |-> sds[i].shape, n |-> n], [ret |-> 0])
+    /\ UNCHANGED <<st, ras, nk>>
 ScalesSeen(r, e) == IF r = "DFSD" /\ e.writer # "DFSD" THEN [i \in 1..Len(e.scales) |-> 0] ELSE e.scales
 \* listing through SD or DFSD: shape, number type, seed, scales
 ListSds(r) ==
@@ -123,14 +132,20 @@ Legacy(f) ==
 Next == \/ Setup \/ ListSdsNc \/ VViews
         \/ \E w \in SdsWriters, sh \in Shapes, ty \in Types, sc \in ScaleSets, unl \in BOOLEAN : WriteSds(w, sh, ty, sc, unl)
         \/ \E r \in {"SD", "DFSD"} : ListSds(r)
+        \/ \E i \in 1..Len(sds), n \in Grows : GrowSds(i, n)
         \/ \E w \in RasWriters, d \in RasDims, nc \in {1, 3}, cp \in {"none", "rle", "deflate"}, pal \in {0, 1}, il \in {0, 1, 2} :
               WriteRas(w, d, nc, cp, pal, il)
         \/ \E r \in {"GR", "DFR8", "DF24"} : ListRas(r)
 Spec == Init /\ [][Next]_vars
 
 \* objects are never dropped, reordered or changed by later writes through another interface
-Stable == [][st' # "init" => /\ Len(sds') >= Len(sds) /\ SubSeq(sds', 1, Len(sds)) = sds
+\* (a dataset with an unlimited dimension may gain records; nothing else of it changes)
+Same(e, f) == \/ e = f
+              \/ /\ e.unl /\ f = [e EXCEPT !.shape = f.shape] /\ Len(f.shape) = Len(e.shape)
+                 /\ f.shape[1] >= e.shape[1] /\ \A d \in 2..Len(e.shape) : f.shape[d] = e.shape[d]
+Stable == [][st' # "init" => /\ Len(sds') >= Len(sds) /\ \A i \in 1..Len(sds) : Same(sds[i], sds'[i])
                              /\ Len(ras') >= Len(ras) /\ SubSeq(ras', 1, Len(ras)) = ras]_vars
 SeedsDistinct == \A i, j \in 1..Len(sds) : i # j => sds[i].k # sds[j].k
 Bound == Len(hist) < MaxOps
+GrowBound == \A i \in 1..Len(sds) : sds[i].shape[1] <= 6
 =============================================================================
